@@ -191,7 +191,7 @@ impl Property for C17 {
         "Generated: valid documents of every public type (signed block, metadata wrapper, layout, link, key, signature, rule, step, \
          inspection, statement, predicate; through the hook also LinkV02, SLSA v0.1/v0.2, both statement types, TimeStamp, envelope file), \
          a share of them with one tree edit (often invalid), rendered with random member order, whitespace and per-character escape \
-         spelling (e.g. \\u0043REATE), optionally truncated or followed by trailing bytes (junk, whitespace, a second document); no duplicate member names. History: in the cases with an odd chunk size an earlier Json::from_reader / JsonPretty::from_reader call in the same process broke off with an I/O error after delivering the first half of the text. Oracle: serde_json::from_str, from_slice, from_reader \
+         spelling (e.g. \\u0043REATE), optionally truncated or followed by trailing bytes (junk, whitespace, a second document); no duplicate member names. For layout and link documents the auto-detecting constructors MetadataWrapper::try_from_bytes and MetablockBuilder::from_raw_metadata must agree with the typed parser MetadataWrapper::from_bytes, also when a member is named twice (plainly or through an escape). History: in the cases with an odd chunk size an earlier Json::from_reader / JsonPretty::from_reader call in the same process broke off with an I/O error after delivering the first half of the text. Oracle: serde_json::from_str, from_slice, from_reader \
          (reader returning 1-7 bytes per call), from_str::<Value>+from_value, Json::from_slice, Json::from_reader, Json::deserialize are all \
          Err or all Ok with equal values. Non-trivial: accepted by at least one channel; distinct by (type, document, spelling)."
             .into()
@@ -283,6 +283,30 @@ impl Property for C17 {
         }
         if let Some((sig, detail)) = diff {
             o.fail(format!("C17/{:?}/{}", spec.kind, sig), detail, "all channels agree");
+        }
+        // The auto-detecting constructors (MetadataWrapper::try_from_bytes, MetablockBuilder::from_raw_metadata) must give
+        // the verdict and value of the typed text parsers - also for a document that names a member twice, which the
+        // typed parsers refuse (a JSON tree silently keeps the last one, so tree-based channels are not compared here).
+        if matches!(spec.kind, Kind::Layout | Kind::Link | Kind::Wrapper) {
+            use in_toto::models::{MetablockBuilder, MetadataType};
+            let mut variants = vec![text.clone()];
+            if let Some(rest) = text.trim_start().strip_prefix('{') {
+                let member = if spec.chunk % 3 == 0 { "\"name\":\"dup\"," } else if spec.chunk % 3 == 1 { "\"\\u006eame\":\"dup\",\"expires\":\"2030-01-01T00:00:00Z\"," } else { "\"_type\":\"link\"," };
+                variants.push(format!("{{{}{}", member, rest));
+            }
+            for t in variants {
+                let typed: Option<MetadataWrapper> = MetadataWrapper::from_bytes(t.as_bytes(), MetadataType::Layout).ok().or_else(|| MetadataWrapper::from_bytes(t.as_bytes(), MetadataType::Link).ok());
+                let auto = MetadataWrapper::try_from_bytes(t.as_bytes()).ok();
+                let builder = MetablockBuilder::from_raw_metadata(t.as_bytes()).ok().map(|b| b.build().metadata);
+                o.evals += 2;
+                if auto != typed {
+                    o.fail("C17/auto-detect/try_from_bytes-differs-from-typed-parse", format!("try_from_bytes = {:?}, from_bytes = {:?} for {:?}", auto.is_some(), typed.is_some(), t), "same verdict and value");
+                }
+                if builder != typed {
+                    o.fail("C17/auto-detect/from_raw_metadata-differs-from-typed-parse", format!("from_raw_metadata = {:?}, from_bytes = {:?} for {:?}", builder.is_some(), typed.is_some(), t), "same verdict and value");
+                }
+            }
+            o.class("auto-detecting-constructors");
         }
         o
     }
